@@ -8,10 +8,17 @@ Proved here (model `Verif.Model.Mpt` / `Verif.Model.MptEnc`):
   * `C02_canonical_unique`     canonical tries (`WF`) with one origin and equal content are equal trees;
   * `C02_root_of_content`      … hence have equal roots, for every hash function `H`;
   * `C02_allOrigin_insert/_delete`  operations at version `v` only create nodes of origin `v`;
-  * `C02_history_independent`, `C02_root_history_independent`
+  * `C02_run_repr`, `C02_history_independent`, `C02_root_history_independent`
                                two operation sequences (exported `Insert`/`Delete`, one version) with the same
                                abstract content produce the same tree and the same root
-                               (relative to `MapLaws`, the map-refinement facts of C01).
+                               (relative to `MapLaws`, the map-refinement facts of C01);
+  * `C02_injective` (def)      "different content ⇒ different root" for an injective hash — FALSE:
+    `C02_injective_false`      leaf ↔ extension type confusion (witness with `H = id`),
+    `C02_collision_any_hash`   leaf ↔ branch type confusion, a root collision for EVERY hash function,
+    `C02_not_injective`;
+  * `C02_injective_partial`, `_lookup`, `_fixed_length`
+                               equal roots ⇒ equal tries for canonical, single-origin, type-unambiguous (`Unamb`)
+                               tries when the hash has no collision among their node hash inputs.
 -/
 import Verif.Model.MptEnc
 import Verif.Lemmas.MptWF
@@ -20,6 +27,7 @@ import Verif.Lemmas.MptCanonDec
 import Verif.Lemmas.MptHistory
 import Verif.Lemmas.MptEncInj
 import Verif.Lemmas.MptEncWitness
+import Verif.Lemmas.MptCanonExamples
 namespace Verif.Props.C02
 open Verif.Mpt
 
@@ -37,22 +45,11 @@ theorem C02_root_of_content (H : Bytes → Bytes) (v : Nat) (t₁ t₂ : Node) (
     root H t₁ = root H t₂ := by
   rw [C02_canonical_unique v t₁ t₂ hw₁ hw₂ ho₁ ho₂ h]
 
-/-- non-vacuity: the same two entries inserted in both orders (the two trees differ as terms: the children functions
-    are built in different orders) -/
-def exA₁ : Node := Verif.Mpt.insert 7 [2] (Verif.Mpt.insert 7 [1] .empty [0, 1]) [0, 2]
-def exA₂ : Node := Verif.Mpt.insert 7 [1] (Verif.Mpt.insert 7 [2] .empty [0, 2]) [0, 1]
-
+/-- non-vacuity (`exA₁`, `exA₂` in `Verif.Lemmas.MptCanonExamples`: the same two entries inserted in both orders; the
+    two trees differ as terms, their children functions being built in different orders) -/
 example : WF exA₁ ∧ WF exA₂ ∧ AllOrigin 7 exA₁ ∧ AllOrigin 7 exA₂ ∧ lookup exA₁ [0, 1] = some [1] ∧
-    ∀ q, lookup exA₁ q = lookup exA₂ q := by
-  refine ⟨by decide, by decide, by decide, by decide, by decide, ?_⟩
-  have e1 : exA₁ = .ext 7 [0] (.full 7 (upd (upd emptyCh 2 (.leaf 7 [] [2])) 1 (.leaf 7 [] [1])) none) := rfl
-  have e2 : exA₂ = .ext 7 [0] (.full 7 (upd (upd emptyCh 1 (.leaf 7 [] [1])) 2 (.leaf 7 [] [2])) none) := rfl
-  rw [e1, e2]
-  apply lookup_ext_congr
-  apply lookup_full_congr
-  intro i q
-  simp only [upd]
-  split <;> split <;> simp_all
+    ∀ q, lookup exA₁ q = lookup exA₂ q :=
+  ⟨exA_wf.1, exA_wf.2.1, exA_wf.2.2.1, exA_wf.2.2.2, by decide, exA_lookup⟩
 
 /-! ### B. origins -/
 
@@ -159,5 +156,26 @@ theorem C02_injective_partial_fixed_length (H : Bytes → Bytes) (n : Nat) (hn :
     t₁ = t₂ :=
   C02_injective_partial H (fun x hx => by have := hlen x; rw [hx] at this; simp at this; omega) v t₁ t₂ hcf hw₁ hw₂
     ho₁ ho₂ (unamb_of_unambLen hlen _ _ hu₁) (unamb_of_unambLen hlen _ _ hu₂) h
+
+/-- non-vacuity of `C02_injective_partial` / `_lookup`: an injective hash that never returns the nil key, two canonical
+    type-unambiguous tries (built in different orders) with equal roots -/
+example : Function.Injective exH ∧ (∀ x, exH x ≠ []) ∧ CollisionFree exH exA₁ exA₂ [] ∧ WF exA₁ ∧ WF exA₂ ∧
+    AllOrigin 7 exA₁ ∧ AllOrigin 7 exA₂ ∧ Unamb exH exA₁ [] ∧ Unamb exH exA₂ [] ∧ root exH exA₁ = root exH exA₂ :=
+  ⟨exH_inj, fun _ h => (by cases h), collisionFree_of_injective exH_inj _ _ _, exA_wf.1, exA_wf.2.1, exA_wf.2.2.1,
+    exA_wf.2.2.2, exA_unamb.1, exA_unamb.2,
+    C02_root_of_content exH 7 _ _ exA_wf.1 exA_wf.2.1 exA_wf.2.2.1 exA_wf.2.2.2 exA_lookup⟩
+
+/-- non-vacuity of `C02_injective_partial_fixed_length`: its hypotheses are compatible with a compressing hash -/
+example : (0 < 4) ∧ (∀ x, (exH4 x).length = 4) ∧ CollisionFree exH4 (.leaf 7 [1, 2] [5]) (.leaf 7 [1, 2] [5]) [] ∧
+    WF (.leaf 7 [1, 2] [5]) ∧ AllOrigin 7 (.leaf 7 [1, 2] [5]) ∧ UnambLen 4 exH4 (.leaf 7 [1, 2] [5]) [] :=
+  ⟨by decide, exH4_spec.1, exH4_spec.2.1, by decide, by decide, exH4_spec.2.2⟩
+
+/-- the witnesses of the two findings violate `Unamb` (so the side condition is not satisfied by accident):
+    the root leaf of `cLeaf` sits at position `[]` and its value has 14 separators -/
+example (H : Bytes → Bytes) (v : Nat) : ¬ Unamb H (cLeaf H v) [] := by
+  intro h
+  have := h (Or.inl rfl)
+  simp [List.count_append] at this
+  omega
 
 end Verif.Props.C02
